@@ -916,6 +916,37 @@ def native_spawn_refused(rp, watchdog_ms=10000):
     return {'cmd': cmd, 'out': out, 'hung': out.startswith('ok hung'), 'returned_ms': None, 'ok': out.startswith('ok'), 'refused': refused or out.startswith('ok hung')}
 
 
+def native_binary_exit(limit_s=8):
+    """the property is about the PROCESS: the real release binary is started as an unprivileged user, so that its writer thread dies at
+    start-up (it cannot create /var/run/clockbound/shm); the process must be gone within a few seconds (run() returning is not enough if
+    main() then lingers)"""
+    import subprocess, os
+    try:
+        from .drift_cli import load_bin_program
+        load_bin_program()          # builds the release binary as a side effect of the MIR dump
+    except Exception as e:
+        return {'cmd': 'clockbound (as uid 65534)', 'out': 'binary not built: %s' % e, 'hung': False, 'returned_ms': None, 'ok': False}
+    b = os.path.join(common.mir_target_dir('dbin'), 'release', 'clockbound')
+    if not os.path.exists(b) or os.geteuid() != 0:
+        return {'cmd': b, 'out': 'not runnable here (binary missing or not root)', 'hung': False, 'returned_ms': None, 'ok': False}
+
+    def demote():
+        os.setgid(65534); os.setuid(65534)
+    t0 = time.time()
+    p = subprocess.Popen([b], preexec_fn=demote, stdout=subprocess.PIPE, stderr=subprocess.PIPE, text=True)
+    try:
+        p.wait(timeout=limit_s)
+        hung = False
+    except subprocess.TimeoutExpired:
+        hung = True
+        p.kill(); p.wait()
+    ms = int((time.time() - t0) * 1000)
+    tail = ((p.stdout.read() or '') + (p.stderr.read() or ''))[-400:]
+    died = 'Failed to create SHM writer' in tail or 'panicked' in tail
+    return {'cmd': 'clockbound (release binary, as uid 65534: the writer thread cannot create the segment)', 'out': ('still running after %d s' % limit_s if hung else 'exited code=%s after %d ms' % (p.returncode, ms)) + ('; a worker died' if died else ''),
+            'hung': hung and died, 'returned_ms': None if hung else ms, 'ok': True, 'tail': tail[-200:]}
+
+
 def native_backlog(rp, watchdog_ms=22000):
     """the writer thread is held up (not dead) for 11.5 s from its second loop visit on, while the poller keeps reporting once a second;
     the poller then dies (panic at its 11th visit, ~10 s in).  When the writer comes back it finds the backlog AND main's ThreadAbort in
@@ -960,6 +991,11 @@ def native_only(ck, why, tier):
             ck.violation('daemon-lingers', 'the %s thread %s (%s, visit %d%s): the real thread_manager::run had not returned 10000 ms later - the daemon lingers with part of its pipeline dead (the step relations of this tree are outside the encodable fragment: %s)'
                          % (who, 'panics' if panic else 'returns', 'at start-up' if where == 'start' else 'at the top of its loop', nth, ((', held %d ms before its mailbox closes' % delay) if delay else '') + ((', chronyd answered %d polls and then went away' % answers) if answers else ''), why[:160]), {'cmd': nat['cmd'], 'native': nat['out']})
             break
+    if not ck.violations:
+        nat = native_binary_exit()
+        runs.append(nat)
+        if nat['hung']:
+            ck.violation('daemon-lingers', 'the real clockbound binary, started so that its writer thread dies at start-up (it cannot create the segment): the process is still there 8 s later (%s) - the workers are gone, the process lingers and its supervisor does not restart it' % nat['out'], {'cmd': nat['cmd'], 'native': nat['out'], 'tail': nat.get('tail')})
     if not ck.violations:
         nat = native_backlog(rp)
         runs.append(nat)
@@ -1107,6 +1143,11 @@ def run_check(tier, seed):
                 break
             if not nat['ok']:
                 ck.inconclusive.append('native thread run failed: ' + nat['out'][:100])
+    if not ck.violations:
+        nat = native_binary_exit()
+        native_runs.append(nat)
+        if nat['hung']:
+            ck.violation('daemon-lingers', 'the real clockbound binary, started so that its writer thread dies at start-up (it cannot create the segment): the process is still there 8 s later (%s) - the workers are gone, the process lingers and its supervisor does not restart it' % nat['out'], {'cmd': nat['cmd'], 'native': nat['out'], 'tail': nat.get('tail')})
     if not ck.violations:
         nat = native_backlog(rp)
         native_runs.append(nat)
